@@ -1039,12 +1039,13 @@ mod progs {
             if d == 0 {
                 return self.r.pick(&["float", "float", "int", "string"]).to_string();
             }
-            match self.r.below(9) {
+            match self.r.below(10) {
                 0 | 1 | 2 => self.r.pick(&["float", "float", "int", "string"]).to_string(),
                 3 => format!("({},{}{})", self.ty(d - 1), self.sp(), self.ty(d - 1)),
                 4 | 5 => format!("({}){}->{}{}", self.ty(d - 1), self.sp(), self.sp(), self.ty(d - 1)),
                 6 => format!("({}, {})->{}", self.ty(d - 1), self.ty(d - 1), self.ty(d - 1)),
                 7 => format!("[{}]", self.ty(d - 1)),
+                8 => format!("{{k0:{}{},{}k1{}:{}}}", self.sp(), self.ty(d - 1), self.sp(), self.sp(), self.ty(d - 1)),
                 _ => format!("`{}", self.ty(d - 1)),
             }
         }
@@ -1158,6 +1159,7 @@ mod progs {
                 0 | 1 | 2 => format!("let {}{}{}={}{}", self.id(), self.opt_ann(), self.sp(), self.sp(), self.expr(d, ind)),
                 3 => format!("let ({}, {}) = ({}, {})", self.id(), self.id(), self.expr(d.min(1), ind), self.expr(d.min(1), ind)),
                 4 => format!("{} = {}", self.id(), self.expr(d, ind)),
+                5 => format!("let {{k0{}={}{}, k1 = {}}} = {}", self.sp(), self.sp(), self.id(), self.id(), self.expr(d.min(1), ind)),
                 _ => self.expr(d, ind),
             }
         }
@@ -1223,7 +1225,13 @@ mod progs {
                 let d = 1 + self.r.below(4) as usize;
                 if self.r.chance(1, 2) {
                     let np = self.r.below(4) as usize;
-                    let ps: Vec<String> = (0..np).map(|_| self.id()).collect();
+                    // parameters: name, optional type annotation, optional default value
+                    let ps: Vec<String> = (0..np)
+                        .map(|_| {
+                            let dflt = if self.r.chance(1, 5) { format!("{}={}{}", self.sp(), self.sp(), self.lit()) } else { String::new() };
+                            format!("{}{}{}", self.id(), self.opt_ann(), dflt)
+                        })
+                        .collect();
                     let body = self.stmts(d, 2);
                     // the statement after a function declaration carries no leading comment (finding F14: after `}`)
                     let ret = self.opt_ret();
